@@ -7,6 +7,7 @@
      eqinf   as eq, but zero = 1 says the scalar is = 0 (mod n): then lib must be <<>> (the point at infinity)
      verdict lib, ref \in {"accept", "reject"}: equal; a library reject carries a documented exception class (cls) for ctx
      accept  lib = ref = "accept"                                (interoperability of untampered signatures)
+     docreject  no oracle (e.g. a raw signature of the wrong length has no (r, s)): lib = "reject" with a documented class
      flags   lib is a sequence of 0/1 relations evaluated on big integers by the harness: all 1 *)
 EXTENDS Integers, Sequences, Json, IOUtils, TLC
 Trace == ndJsonDeserialize(IOEnv.TRACE_FILE)
@@ -34,6 +35,10 @@ Verdict(ev) ==
     ELSE IF ev.op = "accept" THEN
         IF ev.lib # "accept" THEN "library-rejects-valid"
         ELSE IF ev.ref # "accept" THEN "openssl-rejects-library-output"
+        ELSE "ok"
+    ELSE IF ev.op = "docreject" THEN
+        IF ev.lib # "reject" THEN "malformed-accepted"
+        ELSE IF ev.cls \notin Doc(ev.ctx) THEN "undocumented-exception"
         ELSE "ok"
     ELSE IF ev.op = "flags" THEN
         IF Len(ev.lib) > 0 /\ \A j \in 1..Len(ev.lib) : ev.lib[j] = 1 THEN "ok" ELSE "relation-fails"
